@@ -35,7 +35,7 @@ pub fn run(prop: &str, tier: Tier, seed: u64) -> i32 {
   let known = Known::load(prop);
   super::prologue(&mut report, &known);
   let (shards, cases, max_init, max_ops) = match tier {
-    Tier::Quick => (8, 2500, 8, 40),
+    Tier::Quick => (16, 4000, 8, 40),
     Tier::Thorough => (16, 40000, 14, 160),
   };
   let cfg = SearchCfg { prop, label: "ops", seed, shards, cases_per_shard: cases, max_shrink_iters: 4000 };
